@@ -323,6 +323,17 @@ var schemaMutations = []schemaMutation{
 		d.Fields = append(d.Fields, &ast.FieldDefinition{Name: "viaNamespace", Type: ast.NonNullNamedType(ns[r.Intn(len(ns))].Name, nil)})
 		return true
 	}},
+	{"ns_in_interface", false, func(r *rand.Rand, doc *ast.SchemaDocument) bool {
+		// a namespace type behind an interface field (a new interface, or an existing one together with its implementers
+		// that are namespaces already): interfaces are "non-namespace objects" for this rule as well
+		ns := nsDefs(doc)
+		if len(ns) == 0 {
+			return false
+		}
+		doc.Definitions = append(doc.Definitions, &ast.Definition{Kind: ast.Interface, Name: "ZzSection",
+			Fields: ast.FieldList{{Name: "viaNamespace", Type: ast.NonNullNamedType(ns[r.Intn(len(ns))].Name, nil)}}})
+		return true
+	}},
 	{"ns_cycle", true, func(r *rand.Rand, doc *ast.SchemaDocument) bool {
 		q := docDef(doc, "Query")
 		if q == nil || dirDef(doc, "namespace") == nil {
